@@ -1,5 +1,7 @@
 /- Helper lemmas for C13 (layout of list containers). -/
 import Simpleline.Spec.WidgetSpec
+import Simpleline.Lemmas.ContainersOrder
+import Simpleline.Lemmas.ContainersRender
 
 namespace Simpleline
 
